@@ -38,7 +38,7 @@ def resolve(qualname):
 def num(v):
     if isinstance(v, dict):
         if "q" in v:
-            return float(fractions.Fraction(v["q"][0], v["q"][1]))
+            return float(fractions.Fraction(int(v["q"][0]), int(v["q"][1])))
         if "approx" in v:
             return float(v["approx"].rstrip("?"))
         raise ValueError("unreplayable value %r" % (v,))
@@ -150,12 +150,39 @@ def run_native(ob):
     model = ob.get("model") or {}
     if not model:
         return {"reproduced": False, "note": "the solver produced no model"}
+    cands = [model] + [dict(model, **ov) for ov in c.opts.get("replay_candidates", [])]
+    last = None
+    for mdl in cands:
+        last = run_native_one(ob, c, cfg, mdl)
+        if last.get("reproduced"):
+            if mdl is not model:
+                last["note"] = "reproduced with a candidate input from the contract's replay pool (the solver model " \
+                               "itself did not reproduce: REAL-mode abstraction of repr())"
+            return last
+    return last
+
+
+def run_native_one(ob, c, cfg, model):
     try:
         S1 = NativeSym(model)
         args1 = c.inputs(S1, cfg)
         fn = resolve(c.target)
         real = native_outcome(lambda: fn(**args1))
         res = {"real": describe(real), "inputs": {k: show(v) for k, v in args1.items()}}
+        if ob.get("kind") == "raises":
+            if real[0] == "raise":
+                en = type(real[1]).__name__
+                if en not in (c.raises or {}):
+                    res["reproduced"] = True
+                else:
+                    ns = dict(resolve(c.spec_module).__dict__)
+                    ns.update(args1)
+                    res["reproduced"] = not bool(eval(c.raises[en], ns))
+            else:
+                ns = dict(resolve(c.spec_module).__dict__)
+                ns.update(args1)
+                res["reproduced"] = any(bool(eval(t, ns)) for t in (c.raises or {}).values())
+            return res
         if ob.get("kind") == "ensures":
             text = ob["detail"].split(" | ")[0]
             ns = dict(resolve(c.spec_module).__dict__)
